@@ -96,8 +96,12 @@ func runC08(c *Ctx) {
 			ikBytes = append([]byte{0, 0, 0}, r.Bytes(20)...) // short index key with leading zeros
 		}
 		var first string
+		var blind0 []byte
 		for rep := 0; rep < 4; rep++ {
 			blind := r.Bytes(48)
+			if rep == 0 {
+				blind0 = blind
+			}
 			switch rep {
 			case 1:
 				blind = append([]byte{0, 0}, r.Bytes(30)...) // leading zeros
@@ -128,6 +132,19 @@ func runC08(c *Ctx) {
 				c.Direct(false, "two different (client, index key) pairs share an ID", map[string]any{"a": prev, "b": key})
 			}
 			seen[first] = key
+		}
+		// the same client with the same request blind (hence the same request key) at another origin with another
+		// index key, on the same issuer object: the ID is that of the new index key
+		{
+			ik2 := r.Bytes(48)
+			o := c.Run("c08.id", hx(cl.pubEnc), hx(ik2), hx(cl.secret), hx(blind0), hx(r.Bytes(32)), "-", hx([]byte(origins[(p+1)%3])), fmt.Sprint(p%2))
+			c.Count("id:same-blind-other-index-key")
+			ikRef, _ := ecdsa.CreateKey(elliptic.P384(), ik2)
+			bp, _ := ecdsa.BlindPublicKeyWithContext(elliptic.P384(), &cl.sk.PublicKey, ikRef, t3ctx("IssuerBlind"))
+			ref := make([]byte, 48)
+			io.ReadFull(hkdf.New(sha512.New384, elliptic.MarshalCompressed(elliptic.P384(), bp.X, bp.Y), cl.pubEnc, []byte("IssuerOriginAlias")), ref)
+			c.Direct(o == "ok "+hxv(ref) && o != first, "ID for a second index key, requested with the same request blind, is not the ID of that index key",
+				map[string]any{"client": hx(cl.pubEnc), "indexKey": hx(ik2), "blind": hx(blind0), "impl": o, "first": first})
 		}
 		// same index key, another client; same client, another index key -> different IDs (checked through `seen`)
 		if p%3 == 0 {
